@@ -521,7 +521,8 @@ func checkC14(w *World, tier string) *Report {
 		"R14.3 the context writer dereferences its execution context only under a non-nil test (the shared table instance has none; only EVM.Call clones it with the caller's context); " +
 		"R14.4 success implies the host was consulted: every return with a nil error is dominated by the call into the Aspect runtime, and the readers' output is data-dependent on that call's result; " +
 		"R14.5 the address given to SetAspectContext is ctx.from, and the only ExecutionContext constructed in the fork sets from = caller.Address() of EVM.Call; " +
-		"R14.6 RequiredGas of each returns one compile-time constant. Not decided: that ABI decoding extracts the right bytes of well-formed payloads, the exact-length policy of the hash payload, behaviour of the Aspect runtime."
+		"R14.6 RequiredGas of each returns one compile-time constant; " +
+		"R14.7 the caller context never reaches the shared table instance: CloneWithCtx of a context-carrying precompile returns a fresh allocation holding the context it was given, and no method of such a type stores through its receiver — otherwise the context of one CALL would stay in the package-level table and later DELEGATECALL/CALLCODE/STATICCALLs (which pass no context) would write under that earlier caller's address. Not decided: that ABI decoding extracts the right bytes of well-formed payloads, the exact-length policy of the hash payload, behaviour of the Aspect runtime."
 	vm := w.Pkgs[forkPath(pkVM)]
 	info := vm.TypesInfo
 	// R14.1: resolve types from the map literals
@@ -665,6 +666,7 @@ func checkC14(w *World, tier string) *Report {
 		}
 	}
 	addExecCtxRule(w, r, "R14.5")
+	addCtxCloneRule(w, r, "R14.7")
 	r.need("R14.4", 3)
 	r.need("R14.5", 2)
 	r.need("R14.6", 3)
@@ -798,7 +800,7 @@ func addExecCtxRule(w *World, r *Report, rule string) {
 				c, ok := st.Val.(*ssa.Call)
 				okv := false
 				if ok && c.Call.IsInvoke() && c.Call.Method.Name() == "Address" {
-					if p, isP := c.Call.Value.(*ssa.Parameter); isP && p.Name() == "caller" {
+					if p, isP := c.Call.Value.(*ssa.Parameter); isP && typeBaseName(p.Type()) == "ContractRef" {
 						okv = true
 					}
 				}
@@ -818,6 +820,68 @@ func addExecCtxRule(w *World, r *Report, rule string) {
 	}
 }
 
+// addCtxCloneRule: types with a CloneWithCtx method (context-carrying precompiles).
+func addCtxCloneRule(w *World, r *Report, rule string) {
+	n := 0
+	for _, fn := range w.Funcs(forkPath(pkVM)) {
+		if fn.Name() != "CloneWithCtx" || fn.Signature.Recv() == nil {
+			continue
+		}
+		n++
+		tname := typeBaseName(fn.Signature.Recv().Type())
+		key := "vm." + tname
+		var bad []string
+		if !returnsFreshAlloc(fn) {
+			bad = append(bad, "CloneWithCtx does not return a fresh allocation on every path (the shared table instance is handed out)")
+		} else {
+			// the fresh instance carries the context parameter
+			carries := false
+			for _, b := range fn.Blocks {
+				for _, ins := range b.Instrs {
+					if st, ok := ins.(*ssa.Store); ok && len(fn.Params) == 2 && st.Val == ssa.Value(fn.Params[1]) {
+						if fa, ok := st.Addr.(*ssa.FieldAddr); ok {
+							if _, isAlloc := fa.X.(*ssa.Alloc); isAlloc {
+								carries = true
+							}
+						}
+					}
+				}
+			}
+			if !carries {
+				bad = append(bad, "the instance returned by CloneWithCtx does not hold the context it was given")
+			}
+		}
+		for _, m := range w.Funcs(forkPath(pkVM)) {
+			if m.Signature.Recv() == nil || typeBaseName(m.Signature.Recv().Type()) != tname || len(m.Params) == 0 {
+				continue
+			}
+			for _, g := range withAnon(m) {
+				for _, b := range g.Blocks {
+					for _, ins := range b.Instrs {
+						st, ok := ins.(*ssa.Store)
+						if !ok {
+							continue
+						}
+						root, _, _ := addrRoot(st.Addr)
+						if root == ssa.Value(m.Params[0]) {
+							bad = append(bad, m.Name()+" stores through its receiver at "+w.pos(st.Pos())+" (the receiver may be the instance shared through the package-level precompile table)")
+						}
+					}
+				}
+			}
+		}
+		if len(bad) > 0 {
+			r.violated(rule, key, w.pos(fn.Pos()), strings.Join(bad, "; "))
+		} else {
+			r.holds(rule, key, w.pos(fn.Pos()), "CloneWithCtx returns a fresh instance holding its argument; no method stores through the receiver")
+		}
+	}
+	if n == 0 {
+		r.undecided(rule, "vm.CloneWithCtx", "-", "no context-carrying precompile found: the rule's anchor does not resolve")
+	}
+	r.need(rule, 1)
+}
+
 // ---- C19 -------------------------------------------------------------------------------------------------
 
 // extraRangeTargets: inherited functions whose safety rested on a callee postcondition that the fork
@@ -829,6 +893,7 @@ var extraRangeTargets = map[string]string{
 func checkC19(w *World, tier string) *Report {
 	r := newReport("C19")
 	r.Explanation = "Structural necessary condition 'finish without panic' only: R19.1 (E3) every index/slice obligation in the fork-only functions of tracers/native and in the fork insertions of its modified functions (CaptureAspectEnter/Exit, CaptureExit, clearFailedLogs, flatFromNested, flatAspectNested, newFlatJoinPoint …) is entailed by the dominating guards, given the reviewed field invariant len(callTracer.callstack) >= 1 (R19.0, checked inductively: the constructor makes one frame and the only shrinking store keeps size-1 >= 1 elements); plus the inherited flatCallTracer.CaptureExit, whose safety rested on a callee postcondition the fork changed. Inherited tracer code that is a clone of the reference is the reference's (C18) and is not re-analysed. " +
+		"R19.2 (resolved AST of the flattening functions) the collections summed into a frame's Subtraces are exactly the collections whose elements are emitted recursively, a collection ranged over once is emitted unconditionally and one ranged over twice is split by complementary skip conditions — so the declared sub-trace count equals the number of children emitted by that step and no child is emitted twice or dropped; R19.3 nil-field must-analysis (as C03 R3.5) on the same functions; R19.4 (may-alias roots through result summaries) the trace address handed to every recursive emission in the flattening functions is a fresh slice — it shares storage neither with the parent's address nor with a sibling's, so addresses stored in emitted frames cannot be overwritten by later appends; R19.5 state that is set when an Aspect execution is entered and reset when it is left (the 'an Aspect is running' marker consulted by CaptureExit) is stored in the frame record (an element of the call stack), never in the tracer itself: Aspect executions of different open frames interleave, so a tracer-wide marker is cleared by an inner Aspect's exit while the outer one still runs. " +
 		"Not decided: which open Aspect frame an exit is matched to, exactly-once emission, sub-trace counts and trace-address uniqueness — properties of event histories, outside static reach."
 	targets := w.rangeTargets(pkNative)
 	ownTargets := append([]*ssa.Function{}, targets...) // the nil-field rule is for fork code only; the inherited extra target keeps the reference's own invariants (a CALL frame always has a destination)
@@ -843,8 +908,152 @@ func checkC19(w *World, tier string) *Report {
 	r.need("R19.1", 30)
 	addCallstackInvariant(w, r, "R19.0")
 	addNilFieldRule(w, r, "R19.3", ownTargets, nil)
+	addSubtraceRule(w, r, "R19.2")
+	addTraceAddressRule(w, r, "R19.4")
+	addFrameScopedMarkerRule(w, r, "R19.5")
 	r.Assumptions = append(r.Assumptions, "the EVM emits well-nested event streams (C18 R18.2 capture balance)")
 	return r
+}
+
+// addTraceAddressRule: trace addresses passed down the flattening recursion are fresh slices.
+func addTraceAddressRule(w *World, r *Report, rule string) {
+	eng := w.aliasEngine()
+	n := 0
+	for _, fn := range w.Funcs(forkPath(pkNative)) {
+		// flattening functions: take a []int and return ([]flatCallFrame, error)
+		var addrParam *ssa.Parameter
+		for _, p := range fn.Params {
+			if sl, ok := p.Type().Underlying().(*types.Slice); ok {
+				if b, ok := sl.Elem().Underlying().(*types.Basic); ok && b.Kind() == types.Int {
+					addrParam = p
+				}
+			}
+		}
+		if addrParam == nil || fn.Signature.Results().Len() != 2 {
+			continue
+		}
+		ord := 0
+		for _, b := range fn.Blocks {
+			for _, ins := range b.Instrs {
+				c, ok := ins.(*ssa.Call)
+				if !ok {
+					continue
+				}
+				cal := c.Call.StaticCallee()
+				if cal == nil || !isForkPkg(cal.Pkg) || cal.Signature.Results().Len() != 2 {
+					continue
+				}
+				for i, arg := range c.Call.Args {
+					sl, ok := arg.Type().Underlying().(*types.Slice)
+					if !ok {
+						continue
+					}
+					if bt, ok := sl.Elem().Underlying().(*types.Basic); !ok || bt.Kind() != types.Int {
+						continue
+					}
+					if i >= len(cal.Params) {
+						continue
+					}
+					ord++
+					n++
+					key := fmt.Sprintf("%s/child-address#%d", relName(fn), ord)
+					var bad []string
+					for _, rt := range eng.rootsOf(arg, map[ssa.Value]bool{}) {
+						switch {
+						case rt.param != nil:
+							bad = append(bad, "parameter "+rt.param.Name()+" of "+relName(rt.param.Parent()))
+						case rt.field != "":
+							bad = append(bad, "field "+rt.field)
+						case rt.free != nil:
+							bad = append(bad, "captured variable "+rt.free.Name())
+						}
+					}
+					if len(bad) > 0 {
+						r.violated(rule, key, w.pos(c.Pos()), "the trace address handed to "+cal.Name()+" may share its backing array with "+strings.Join(dedup(bad), ", ")+": a sibling's append can overwrite the address already stored in an emitted frame (addresses are then neither unique nor prefix-closed)")
+					} else {
+						r.holds(rule, key, w.pos(c.Pos()), "fresh slice: no parameter, field or captured variable among its may-alias roots")
+					}
+				}
+			}
+		}
+	}
+	r.need(rule, 4)
+	_ = n
+}
+
+// addFrameScopedMarkerRule: fields stored both by CaptureAspectEnter and by CaptureAspectExit of the
+// call tracer are elements of the call stack (per-frame), not fields of the tracer.
+func addFrameScopedMarkerRule(w *World, r *Report, rule string) {
+	enter := w.Func(forkPath(pkNative), "(*callTracer).CaptureAspectEnter")
+	exit := w.Func(forkPath(pkNative), "(*callTracer).CaptureAspectExit")
+	if enter == nil || exit == nil {
+		r.undecided(rule, "tracers/native.(*callTracer).CaptureAspectEnter/Exit", "-", "functions not found: the rule's anchor does not resolve")
+		return
+	}
+	type wr struct {
+		perFrame bool
+		pos      token.Pos
+	}
+	collect := func(fn *ssa.Function) map[string][]wr {
+		out := map[string][]wr{}
+		for _, b := range fn.Blocks {
+			for _, ins := range b.Instrs {
+				st, ok := ins.(*ssa.Store)
+				if !ok {
+					continue
+				}
+				fa, ok := st.Addr.(*ssa.FieldAddr)
+				if !ok {
+					continue
+				}
+				// per-frame: the address chain passes an element of a slice
+				per := false
+				v := fa.X
+				for d := 0; d < 8; d++ {
+					switch x := v.(type) {
+					case *ssa.IndexAddr:
+						per = true
+					case *ssa.FieldAddr:
+						v = x.X
+						continue
+					case *ssa.UnOp:
+						v = x.X
+						continue
+					}
+					break
+				}
+				out[fieldID(fa)] = append(out[fieldID(fa)], wr{per, st.Pos()})
+			}
+		}
+		return out
+	}
+	we, wx := collect(enter), collect(exit)
+	n := 0
+	var ids []string
+	for id := range we {
+		if _, both := wx[id]; both {
+			ids = append(ids, id)
+		}
+	}
+	sort.Strings(ids)
+	for _, id := range ids {
+		n++
+		bad := token.NoPos
+		for _, x := range append(we[id], wx[id]...) {
+			if !x.perFrame {
+				bad = x.pos
+			}
+		}
+		if bad.IsValid() {
+			r.violated(rule, "marker:"+id, w.pos(bad), id+" is set on entering an Aspect execution and reset on leaving it, but lives in the tracer rather than in the frame record: an Aspect started by a nested frame clears it while the outer Aspect is still running, and the outer Aspect's later calls are attached to the wrong parent")
+		} else {
+			r.holds(rule, "marker:"+id, w.pos(enter.Pos()), "set/reset state of Aspect executions is an element of the call stack (per frame)")
+		}
+	}
+	if n == 0 {
+		r.undecided(rule, "marker", w.pos(enter.Pos()), "no state written by both CaptureAspectEnter and CaptureAspectExit found: the rule's anchor does not resolve")
+	}
+	r.need(rule, 1)
 }
 
 // addCallstackInvariant: len(callTracer.callstack) >= 1 is established by the constructor and kept by every store.
@@ -890,6 +1099,7 @@ func checkC20(w *World, tier string) *Report {
 	r.Explanation = "E3 resource obligations on everything reachable through static fork callees from a journal instruction (slots 0xe0-0xe7, resolved from the table) or an Artela precompile's Run (addresses 100-102): " +
 		"R20.1 every loop's exit test compares an induction variable with a bound that is a constant or entailed to be at most the length of an existing buffer/collection (ranges over existing maps/slices are bounded by construction); " +
 		"R20.2 every make size and every Memory.GetCopy size is a constant or entailed to be at most the length of an existing buffer — so no instruction copies, hashes or allocates an attacker-chosen amount for its flat fee; " +
+		"R20.4 a fork instruction that declares a memorySize (making the interpreter allocate up to an operand-chosen size before it runs) has a dynamicGas function that reads that size; calls of the padding helpers getData / common.RightPadBytes / LeftPadBytes count as allocations of their size argument under R20.2; " +
 		"R20.3 the flat fee itself is C12 R12.3; inherited instructions are clones of the reference (their metering is the reference's, C02). Constants of proportionality and work done inside host callbacks are not decided."
 	var roots []*ssa.Function
 	for _, js := range w.journalSlots() {
@@ -958,5 +1168,59 @@ func checkC20(w *World, tier string) *Report {
 	r.Analysed["functions_reachable_from_fork_instructions_and_precompiles"] = nf
 	r.need("R20.1", 1)
 	r.need("R20.2", 1)
+	// R20.4: a fork slot that makes the interpreter resize memory must pay for the size
+	info := w.Pkgs[forkPath(pkVM)].TypesInfo
+	slots := append(w.journalSlots(), w.slotLits(0x5e, 0x5e)...)
+	for _, js := range slots {
+		key := fmt.Sprintf("slot-0x%02x", js.slot)
+		if _, has := js.fields["memorySize"]; !has {
+			r.holds("R20.4", key, w.pos(js.pos), "declares no memorySize: the interpreter never resizes memory for this instruction")
+			continue
+		}
+		var gfn *ssa.Function
+		dgE := js.fields["dynamicGas"]
+		// a package-level variable initialised with a constructor call (gasMcopy = memoryCopierGas(2))
+		if id, ok := dgE.(*ast.Ident); ok {
+			if v, ok := info.Uses[id].(*types.Var); ok && v.Parent() == w.Pkgs[forkPath(pkVM)].Types.Scope() {
+				for _, f := range w.Pkgs[forkPath(pkVM)].Syntax {
+					ast.Inspect(f, func(n ast.Node) bool {
+						vs, ok := n.(*ast.ValueSpec)
+						if !ok {
+							return true
+						}
+						for i, nm := range vs.Names {
+							if info.Defs[nm] == types.Object(v) && i < len(vs.Values) {
+								dgE = vs.Values[i]
+							}
+						}
+						return true
+					})
+				}
+			}
+		}
+		switch dg := dgE.(type) {
+		case *ast.CallExpr:
+			if id, ok := dg.Fun.(*ast.Ident); ok {
+				if fo, ok := info.Uses[id].(*types.Func); ok {
+					if ctor := w.Func(forkPath(pkVM), fo.Name()); ctor != nil && len(ctor.AnonFuncs) == 1 && returnsOnlyClosure(ctor) {
+						gfn = ctor.AnonFuncs[0]
+					}
+				}
+			}
+		case *ast.Ident:
+			if fo, ok := info.Uses[dg].(*types.Func); ok {
+				gfn = w.Func(forkPath(pkVM), fo.Name())
+			}
+		}
+		switch {
+		case gfn == nil:
+			r.violated("R20.4", key, w.pos(js.pos), "the slot declares a memorySize (the interpreter resizes memory to an operand-chosen size) but has no resolvable dynamicGas function that could charge for it")
+		case len(gfn.Params) == 0 || gfn.Params[len(gfn.Params)-1].Referrers() == nil || len(*gfn.Params[len(gfn.Params)-1].Referrers()) == 0:
+			r.violated("R20.4", key, w.pos(js.pos), "the slot declares a memorySize, so the interpreter resizes memory to an operand-chosen size before the instruction runs, but its dynamicGas function "+relName(gfn)+" never reads its memorySize argument: the expansion is free")
+		default:
+			r.holds("R20.4", key, w.pos(js.pos), "memorySize declared and read by the dynamicGas function "+relName(gfn))
+		}
+	}
+	r.need("R20.4", 9)
 	return r
 }
